@@ -164,6 +164,14 @@ def linear_child():
     reqs = cfg["requests"]
     events = []
     for r in cfg["history"]:
+        if r == 0:
+            # Work: the process computes for longer than the LCD search limit of the analyses that follow
+            # (default --lcd-timeout 10 s), in CPU time and therefore also in wall time
+            t0, x = time.process_time(), 0
+            while time.process_time() - t0 < cfg.get("burn", 10.6):
+                x += sum(i * i for i in range(2000))
+            events.append({"req": 0, "sha": None, "text": None, "before": {}, "after": {}, "cpu": time.process_time()})
+            continue
         before = _fingerprints()
         try:
             text = normalise(_analyze(reqs[r - 1]))
@@ -241,6 +249,12 @@ def _main(run, tier, seed):
     run.add_mc(r3, "MC_Session_reused")
     if "ReportIsFunctionOfRequest" not in r3.violated:
         raise tlc.TLCError("MC_Session_reused: expected the history-dependence counterexample")
+    r4 = tlc.run_tlc("MC_Session", "MC_Session_aged", workers=1, timeout=300, coverage=True)
+    run.add_mc(r4, "MC_Session_aged")
+    r5 = tlc.run_tlc("MC_Session", "MC_Session_procclock", workers=1, timeout=300, allow_violation=True)
+    run.add_mc(r5, "MC_Session_procclock")
+    if "ReportIsFunctionOfRequest" not in r5.violated:
+        raise tlc.TLCError("MC_Session_procclock: expected the aged-process counterexample")
     if len(emitted) != 584:
         raise tlc.TLCError("expected 584 non-empty histories from MC_Session_today, got %d" % len(emitted))
     hists = sorted(tuple(e["h"]) for e in emitted)
@@ -319,6 +333,9 @@ def _main(run, tier, seed):
             pool = rnd.choice([[1, 5, 7, 8], [2, 6], [3, 4], [8, 8, 1], [3, 3, 4]])
             h = [rnd.choice(pool) for _ in range(n)]
         lin.append(h)
+    # aged processes: Work (more CPU and wall time than the search limit) before and between analyses
+    aged = [[0, 1, 3, 8, 4], [0, 6, 2, 5, 7]] if quick else [[0] + rnd.sample(range(1, 9), 8) for _ in range(6)] + [[1, 0, 1], [3, 0, 4, 3]]
+    lin += aged
     single = [[r] for r in range(1, 9)]  # single-call processes: reference fingerprints
 
     def run_lin(h):
@@ -335,6 +352,9 @@ def _main(run, tier, seed):
     for i, (h, evs) in enumerate(zip(single + lin, lres)):
         ev = []
         for e in evs:
+            if e["req"] == 0:
+                ev.append({"req": 0, "rep": 0, "ch": []})
+                continue
             touched = set(fpref[e["req"]])
             ch = sorted(k for k in e["after"] if k not in touched and k in e["before"] and e["before"][k] != e["after"][k])
             ch += sorted("state-of-" + k for k in touched if e["after"].get(k) != fpref[e["req"]].get(k))
@@ -344,6 +364,8 @@ def _main(run, tier, seed):
         meta[cid] = {"hist": h, "kind": "linear", "recs": evs}
         if _shares(h):
             run.mark("lin:" + "_".join(map(str, h)))
+        if 0 in h:
+            run.mark("aged:" + "_".join(map(str, h)))
     run.note("linear_wall_s", round(time.time() - t0, 1))
 
     # self-test of the binding: a report id that is not the reference, and an unknown request kind
@@ -358,7 +380,7 @@ def _main(run, tier, seed):
 
     for v in cc.printed_tuples(rv.raw, "DIVERGE"):
         m = meta[v[1]]
-        run.divergence("shared-model-data-changed", {"history": [reqs[x - 1][0] for x in m["hist"]],
+        run.divergence("shared-model-data-changed", {"history": [rname(reqs, x) for x in m["hist"]],
                                                      "call": v[3], "objects": v[4]})
     failing = []
     got = {v[1] for v in cc.printed_tuples(rv.raw, "REJECT")}
@@ -375,7 +397,7 @@ def _main(run, tier, seed):
     seen = set()
     for _, at, cid, req in sorted(failing):
         m = meta[cid]
-        names = [reqs[x - 1][0] for x in m["hist"]]
+        names = [rname(reqs, x) for x in m["hist"]]
         rec = m["recs"][at - 1]
         if rec["sha"] == "exception":
             sig = "C18:exception:%s:%s" % (names[at - 1], rec.get("exc"))
@@ -391,9 +413,9 @@ def _main(run, tier, seed):
         diff = list(difflib.unified_diff(reftext[req - 1].splitlines(), (rec.get("text") or "").splitlines(),
                                          "fresh-process", "in-process", lineterm="", n=0))[:30]
         run.fail(sig, what, {"history": m["hist"], "names": names, "call": at, "kind": m["kind"], "diff": diff,
-                             "argvs": [argvs[x - 1] for x in m["hist"]]})
+                             "argvs": [argvs[x - 1] if x else ["<work: 10.6 s of CPU>"] for x in m["hist"]]})
     run.sample({"history": [reqs[x - 1][0] for x in hists[100]], "reports_equal_fresh_process": True})
-    run.sample({"history": [reqs[x - 1][0] for x in lin[0]], "kind": "linear"})
+    run.sample({"history": [rname(reqs, x) for x in lin[0]], "kind": "linear"})
     run.note("requests", [{"name": n, "argv": a} for n, a in reqs])
     run.note("tree_histories", len(hists))
     run.note("linear_histories", len(lin) + 8)
@@ -408,7 +430,12 @@ def _main(run, tier, seed):
     return run.finish()
 
 
+def rname(reqs, x):
+    return reqs[x - 1][0] if x else "work-10.6s-cpu"
+
+
 def _shares(h):
+    h = [x for x in h if x]
     arch = {1: "zen1", 2: "zen4", 3: "n1", 4: "tx2", 5: "zen1", 6: "zen4", 7: "zen1", 8: "zen1"}
     isa = {1: "x", 2: "x", 3: "a", 4: "a", 5: "x", 6: "x", 7: "x", 8: "x"}
     for i in range(1, len(h)):
@@ -440,6 +467,9 @@ def replay(path):
         evs = json.loads(p.stdout.decode())
         bad = 0
         for e in evs:
+            if e["req"] == 0:
+                print("  %-18s %.1f s of CPU used by the process" % ("(work)", e.get("cpu", 0)))
+                continue
             ok = e["sha"] == refsha[e["req"] - 1]
             print("  %-18s %s" % (reqs[e["req"] - 1][0], "equals fresh process" if ok else "DIFFERS"))
             bad += not ok
